@@ -7,7 +7,7 @@ import subprocess
 import time
 
 from . import extract as X
-from .api import Fn, Copy, Raw, Group, Unit, TAG_RE, GTAG_RE
+from .api import Fn, Copy, Raw, Group, Unit, ByteConst, TAG_RE, GTAG_RE
 
 HERE = os.path.dirname(os.path.abspath(__file__))
 VERIF = os.path.dirname(HERE)
@@ -148,6 +148,25 @@ def _emit_copy(gen, root, cp):
     gen.copies.append(dict(file=cp.file, regex=cp.regex, repo_line=line, sha=X.sha(text), rules=fired))
 
 
+def _emit_byteconst(gen, root, bc):
+    src = _source(root, bc.file)
+    m = re.search(r'(?m)^\s*(?:pub\s+)?const\s+%s\s*:\s*&(?:\'static\s+)?\[u8\]\s*=\s*b"' % re.escape(bc.name), src.src)
+    if not m:
+        raise X.ExtractError('byte const not found: %s::%s' % (bc.file, bc.name))
+    k = m.end()
+    j = k
+    while src.src[j] != '"':
+        j += 2 if src.src[j] == '\\' else 1
+    lit = src.src[k:j]
+    bs = bytes(lit, 'latin-1').decode('unicode_escape').encode('latin-1')
+    line = src.line_of(m.start())
+    txt = "#[verifier::external_body] pub exec const %s: &'static [u8] ensures %s@ == seq![%s] { b\"%s\" }" % (
+        bc.name, bc.name, ', '.join('%du8' % b for b in bs), lit)
+    _emit(gen, txt, ('copy:' + bc.name, bc.file, line, False))
+    gen.copies.append(dict(file=bc.file, regex='const ' + bc.name, repo_line=line, sha=X.sha(lit),
+                           rules=['R11 byte-string literal const -> exec const with its bytes as ensures: %r' % list(bs)]))
+
+
 def generate(unit, root, canary=False):
     """canary=True: every Fn with canary=True gets `ensures false`."""
     _SRC_CACHE.clear()
@@ -166,6 +185,8 @@ def generate(unit, root, canary=False):
                 _emit(gen, it.text)
             elif isinstance(it, Copy):
                 _emit_copy(gen, root, it)
+            elif isinstance(it, ByteConst):
+                _emit_byteconst(gen, root, it)
             elif isinstance(it, Group):
                 _emit(gen, it.header)
                 walk(it.items)
